@@ -130,6 +130,8 @@ def graph_fingerprint(g: NxMixedGraph) -> tuple[Any, ...]:
 
     Used by the "receiver never modified" invariant: re-inserting an edge, swapping
     the nx objects, touching an attribute dict — all change the fingerprint.
+    Private attributes of the NxMixedGraph object itself are deliberately NOT part of
+    it: a correctly invalidated memo attribute is not a modification of the graph.
     Only compared inside one process, so id() is allowed here (never logged).
     """
     d, u = g.directed, g.undirected
@@ -151,7 +153,6 @@ def graph_fingerprint(g: NxMixedGraph) -> tuple[Any, ...]:
         ),
         _ser_data(d.graph),
         _ser_data(u.graph),
-        tuple(sorted(k for k in vars(g) if k not in ("directed", "undirected"))),
     )
 
 
